@@ -194,6 +194,28 @@ cocls::async<void> mt_coro_sleeper(cocls::scheduler &sch, int i, clk::time_point
     catch (const cocls::await_canceled_exception &) { sleeper_woke(i, 3); }
     catch (const vs::TestError &e) { sleeper_woke(i, 2); }
 }
+// event-driven sleeper: a callback awaiter on the sleep future. Its handler runs inline in whoever completes the sleep - normally the
+// scheduling thread - and re-arms: it asks the same scheduler for a second sleep from inside the completion of the first
+struct CbSleeper : cocls::awaiter {
+    cocls::scheduler &sch; int i; clk::time_point tp; cocls::future<void> f1, f2; cocls::promise<void> done; int stage = 0;
+    CbSleeper(cocls::scheduler &sch, int i, clk::time_point tp) : sch(sch), i(i), tp(tp) { set_resume_fn(&fire); }
+    static cocls::suspend_point<void> fire(cocls::awaiter *me, void *) noexcept { return static_cast<CbSleeper *>(me)->step(); }
+    static int outcome(cocls::future<void> &f) { try { f.value(); return 1; } catch (const vs::TestError &) { return 2; } catch (const cocls::await_canceled_exception &) { return 3; } }
+    void arm() { f1 << [&] { return sch.sleep_until(tp, ident(1 + i)); }; cocls::co_awaiter<cocls::future<void>> aw(f1); if (!aw.subscribe(this)) step().clear(); }
+    cocls::suspend_point<void> step() {
+        if (stage == 0) {
+            stage = 1;
+            int o = outcome(f1); sleeper_woke(i, o);
+            if (o != 1) return done();
+            f2 << [&] { return sch.sleep_until(tp + ms(5)); };
+            cocls::co_awaiter<cocls::future<void>> aw(f2); if (aw.subscribe(this)) return {};
+        }
+        int o2 = outcome(f2);
+        if (o2 == 1 && clk::now() < tp + ms(5)) dsim::fail("C12.early", "re-armed sleep of sleeper %d completed before its time point", i);
+        if (o2 == 2) dsim::fail("C12.cancel_wrong_target", "re-armed sleep of sleeper %d (no identifier) was cancelled with the canceller's exception", i);
+        return done();
+    }
+};
 void deadlock_classifier() {
     if (dsim::cell_get(SEQ) == 77) dsim::fail("C12.destructor_hangs", "scheduler destructor requested stop but the scheduling thread never finished (everything is blocked)");
 }
@@ -202,13 +224,13 @@ void threaded_mode(bool pool_mode) {
     dsim::on_deadlock(deadlock_classifier);
     int n = dsim::choose(4);                  // 0..3 sleepers (0: create and destroy only)
     long delay[4]; int kind[4];
-    for (int i = 0; i < n; i++) { delay[i] = 5 * (long)dsim::choose(6); kind[i] = dsim::choose(2); }
+    for (int i = 0; i < n; i++) { delay[i] = 5 * (long)dsim::choose(6); kind[i] = dsim::choose(3); }
     int ncanc = n ? dsim::choose(3) : 0; int ctarget[3];
     for (int c = 0; c < ncanc; c++) ctarget[c] = dsim::choose(n);
     bool destroy_early = dsim::flip();
     int nworkers = 1 + dsim::choose(2);
     dsim::plan_note("%s mode: stalls=%d sleepers=", pool_mode ? "pool" : "thread", (int)dsim::config().stalls);
-    for (int i = 0; i < n; i++) dsim::plan_note("%ld%s,", delay[i], kind[i] ? "blk" : "co");
+    for (int i = 0; i < n; i++) dsim::plan_note("%ld%s,", delay[i], kind[i] == 1 ? "blk" : kind[i] == 2 ? "cb" : "co");
     for (int c = 0; c < ncanc; c++) dsim::plan_note(" cancel->%d", ctarget[c]);
     dsim::plan_note(" destroy_early=%d workers=%d", (int)destroy_early, nworkers);
     {
@@ -222,6 +244,7 @@ void threaded_mode(bool pool_mode) {
             clk::time_point tp = base + ms(delay[i]);
             dsim::cell_set(TP + i, virt(tp)); dsim::cell_set(T_CALL + i, dsim::now_ns());
             if (kind[i] == 0) { auto f = mt_coro_sleeper(*sch, i, tp, 1 + i).start(); vs::cell_set_hb(ISSUED + i, 1); f.wait(); }
+            else if (kind[i] == 2) { CbSleeper cs(*sch, i, tp); cocls::future<void> fin; cs.done = fin.get_promise(); cs.arm(); vs::cell_set_hb(ISSUED + i, 1); fin.wait(); }
             else {
                 auto f = sch->sleep_until(tp, ident(1 + i)); vs::cell_set_hb(ISSUED + i, 1);
                 try { f.wait(); sleeper_woke(i, 1); } catch (const cocls::await_canceled_exception &) { sleeper_woke(i, 3); } catch (const vs::TestError &) { sleeper_woke(i, 2); }
